@@ -398,3 +398,59 @@ def no_truncation_before_rounding(ck, rule):
         n_ok += 1
     if n_ok == 0:
         ck.unsure(rule, fm, "fixed-point-source branch re-scales codes by a power of two", arm, "no re-scaling found")
+
+
+def no_alias_writes(ck, rule):
+    """C20.R5 (alias-aware): on no path of the string/number normalisation functions is an element stored into an object that still IS a parameter
+    (directly or through a local alias such as `val = x if isinstance(x, list) else list(x)`)."""
+    prog = ck.prog
+    n = 0
+    for q in ("utils.str2num", "utils.int_array", "utils.add_binary_prefix", "utils.complex_repr", A.normaliser(prog).qualname, "functions.fxp_sum", "functions.from_bin"):
+        f = prog.func(q, required=False)
+        if f is None:
+            continue
+        params = set(f.params) - {"self", "kwargs"}
+        for pf in fpaths(prog, f):
+            for st in pf.stores:
+                if isinstance(st.target, ast.Subscript) and st.base is not None and st.depth == 0:
+                    n += 1
+                    b = st.base
+                    if isinstance(b, ast.Name) and b.id in params:
+                        ck.bad(rule, f, "elements are never stored into a container received as an argument", "%s[...] = ... where %s is the caller's %s" % (st.path, st.path, b.id), st.stmt,
+                               "the caller's list is overwritten (e.g. strings replaced by numbers); a tuple raises TypeError")
+        ck.saw(f)
+    ck.ok(rule, "utils.str2num and normalisation helpers", "%d element stores examined with alias resolution" % n, nontrivial=False)
+
+
+def config_not_shared(ck, rule):
+    """C20.R2b: an object's configuration is assigned only inside the constructor (fresh Config / deep copy); no function hands one object's Config to another."""
+    prog = ck.prog
+    for f in prog.all_funcs():
+        if f.module not in ("objects", "functions"):
+            continue
+        for n in ast.walk(f.node):
+            if isinstance(n, ast.Assign):
+                for t in n.targets:
+                    if isinstance(t, ast.Attribute) and t.attr == "config" and dotted(t.value) is not None:
+                        own = effective_owners(prog, f)
+                        v = n.value
+                        fresh = isinstance(v, ast.Call) and (dotted(v.func) in ("Config", "copy.deepcopy") or (isinstance(v.func, ast.Attribute) and v.func.attr == "deepcopy"))
+                        if own <= {"objects.Fxp.__init__"} or fresh or (isinstance(v, ast.Constant) and v.value is None):
+                            continue
+                        ck.bad(rule, f, "a Config object is never handed from one fixed-point object to another", "%s = %s" % (src(t), src(v)[:50]), n,
+                               "the two objects share one configuration: changing the result's modes changes the operand's")
+    ck.ok(rule, "objects.py / functions.py", "every assignment to <obj>.config examined", nontrivial=False)
+
+
+def dispatch_results_unconstrained(ck, rule):
+    """C15.R4: the numpy fallback / output wrappers build results with the plain constructor (value only, or like= and raw= of the configured output):
+    no size or signedness is imposed on a value computed by numpy."""
+    prog = ck.prog
+    for name in ("__array_wrap__", "_wrapped_numpy_func", "_set_array_output_type"):
+        f = prog.func("objects.Fxp." + name)
+        for c in calls_in(f.node):
+            if prog.is_fxp_ctor(f, c):
+                kws = {k.arg for k in c.keywords}
+                ck.check(kws <= {"like", "raw"} and len(c.args) == 1, rule, f, "%s builds its result with the constructor on the value (only like= / raw= of the configured output)" % name,
+                         "%s" % src(c)[:70], c, "an imposed signedness/size quantizes the numpy result (negative entries of a mixed-sign product saturate to 0)")
+        ck.saw(f)
